@@ -213,7 +213,7 @@ class World:
 SYNC_FLAVOURS = ("list", "tuple", "getitem", "sync_iter", "seq_abc", "set_abc")
 CONTAINER_FLAVOURS = ("list", "tuple", "getitem", "seq_abc", "set_abc")  # iterable more than once
 ASYNC_FLAVOURS = ("agen", "aiter_cls", "aiter_noclose", "aiterable", "aiter_full")
-EXTRA_FLAVOURS = ("aiter_throwonly",)  # only used where a check asks for it
+EXTRA_FLAVOURS = ("aiter_throwonly", "aiter_proxy")  # only used where a check asks for it
 ALL_FLAVOURS = SYNC_FLAVOURS + ASYNC_FLAVOURS
 LOGGING_FLAVOURS = ("getitem", "sync_iter", "seq_abc", "set_abc") + ASYNC_FLAVOURS
 
@@ -342,7 +342,7 @@ class Source:
         if fl == "agen":
             ag = self.agen
             return ag is None or ag.ag_frame is None
-        if fl in ("aiter_cls", "aiterable", "aiter_full", "aiter_throwonly"):
+        if fl in ("aiter_cls", "aiterable", "aiter_full", "aiter_throwonly", "aiter_proxy"):
             if fl == "aiterable" and self.n_iters == 0:
                 return True
             return self.n_aclose >= 1 or self.exhausted or self.failed_dead
@@ -357,7 +357,7 @@ class Source:
         fl = self.plan.flavour
         if fl == "agen":
             return self.agen is not None
-        if fl in ("aiter_cls", "aiter_full", "aiter_throwonly"):
+        if fl in ("aiter_cls", "aiter_full", "aiter_throwonly", "aiter_proxy"):
             return True
         if fl == "aiterable":
             return self.n_iters > 0
@@ -651,6 +651,26 @@ class AIterThrowOnly(AIterCls):
         return await self.__anext__()
 
 
+class AIterProxy:
+    """A delegating proxy: the iteration protocol is spelled out, everything else (``aclose``) is forwarded dynamically"""
+
+    __slots__ = ("_inner",)
+
+    def __init__(self, src):
+        self._inner = AIterCls(src)
+
+    def __aiter__(self):
+        return self
+
+    async def __anext__(self):
+        return await self._inner.__anext__()
+
+    def __getattr__(self, name):
+        if name.startswith("__"):
+            raise AttributeError(name)
+        return getattr(self._inner, name)
+
+
 class AIterable:
     __slots__ = ("src",)
 
@@ -693,6 +713,8 @@ def make_async_source(world, plan):
         obj = AIterFull(src)
     elif fl == "aiter_throwonly":
         obj = AIterThrowOnly(src)
+    elif fl == "aiter_proxy":
+        obj = AIterProxy(src)
     elif fl == "aiterable":
         obj = AIterable(src)
     else:  # pragma: no cover
